@@ -492,9 +492,21 @@ impl<'a, R: RealNumberInternalTrait> Interpreter<'a, R> {
         imports: &ImportDeclaration,
         env: Rc<Environment<R>>,
     ) -> Result<()> {
-        let mut definitions = HashMap::new();
+        let mut definitions: HashMap<String, Value<R>> = HashMap::new();
         for import in &imports.0 {
-            definitions.extend(self.eval_import_set(import)?.into_iter());
+            for (name, value) in self.eval_import_set(import)? {
+                // one name imported with two different bindings is an error (r7rs 5.2); picking
+                // one of them would depend on the iteration order of a hash map
+                if let Some(previous) = definitions.get(&name) {
+                    if previous != &value {
+                        return error!(LogicError::Extension(format!(
+                            "{} is imported with different bindings",
+                            name
+                        )));
+                    }
+                }
+                definitions.insert(name, value);
+            }
         }
         for (name, value) in definitions {
             env.define(name, value);
